@@ -40,8 +40,7 @@ def main(argv=None) -> int:
     except (AnalysisError, Undecided) as e:
         print(f"ANALYSIS-ERROR property={prop} {e}")
         rep.undecide("engine", str(e))
-        rep.finish()
-        return 2
+        return 1 if rep.finish() == 1 else 2
     except Exception:
         traceback.print_exc()
         print(f"ANALYSIS-ERROR property={prop} internal error in the checker (traceback above)")
